@@ -36,7 +36,7 @@ UNIT = dict(
                'operator new does not fail (alloc_segment has no failure path of its own); 16-bit marks do not wrap during one operation',
                '[INT] rely of kfq.push.commit: head moves forward one segment at a time, a segment is marked deleted before head leaves it and only by a thread that found it empty while it was head, '
                'a head CAS prepared before the item was inserted can still succeed until the head word changes, the inserted item only ever changes by being taken'],
-  consts=[],
+  consts=[dict(name='XV_SLOT_MARK_BITS', file=F, regex=r'using marked_value = xenium::marked_ptr<std::remove_pointer_t<raw_value_type>,\s*(\d+)>;'), dict(name='XV_MAX_UPPER_MARK_BITS', file='xenium/marked_ptr.hpp', regex=r'#\s*define XENIUM_MAX_UPPER_MARK_BITS (\d+)'), ],
   sources=[
     src('find_index_E', FI_SIG, 'static _Bool kfq_find_index_E(struct kfq* self, marked_ptr segment, uint64_t* value_index_p, marked_value* old_p)',
         subst=FI_SUBST + [(r'\bEmpty\b', '1', 'Empty')], must_fire={'A_LOAD': 1, 'subst:Empty': 2, 'subst:random': 1, 'method:items': 1, 'deref': 1}),
@@ -72,7 +72,7 @@ UNIT = dict(
     dict(id='segment_dtor', file=F, sig=r'~segment\(\) override', c_sig='static void seg_dtor(struct segment* self)',
          members=['k'], self_calls={'items': 'SEGI'}, methods={'get': 'MV_get'}, must_fire={'A_LOAD': 1, 'self_call:items': 1}),
   ],
-  runs=[dict(id='find_index_%s_k%d' % (v, K), entry='h_find_index_' + v, cls='shape-complete', tiers=QT if K <= 8 else TT,
+  runs=[dict(id='slot_word', entry='h_slot_word', cls='unbounded', note='static fact about the slot word type')] + [dict(id='find_index_%s_k%d' % (v, K), entry='h_find_index_' + v, cls='shape-complete', tiers=QT if K <= 8 else TT,
              defs={'KMAX': K, 'KLO': K}, unwind=max(K, 4) + 1, note='k = %d' % K) for K in range(1, 17) for v in 'EN'] + [
     dict(id='%s_k%d' % (op, K), entry='h_' + op, cls='shape-complete', tiers=QT if K <= 3 else TT, defs={'KMAX': K, 'KLO': K, 'XV_STUB': 1}, unwind=max(K, 4) + 1,
          unwindset=['kfq_push.1:3', 'kfq_do_pop.0:5'], flags=['--object-bits', '10'], timeout=1500, note='k = %d, 1..3 linked segments; callees = SEQ contract stubs' % K)
@@ -93,6 +93,7 @@ UNIT = dict(
     dict(id='advance_tail_int', entry='h_advance_tail_int', mode='INT', cls='shape-complete', defs={'KMAX': 2}, unwind=5, flags=['--object-bits', '10'], note='arbitrary environment, real text'),
   ],
   obligations={
+    'kfq.slot.any_pointer': dict(deciding=True, text='the version tag of a slot (marked_value) fits into the upper mark bits of marked_ptr (MarkBits <= XENIUM_MAX_UPPER_MARK_BITS): no low bit of the stored pointer is used, so every pointer value - whatever its alignment, e.g. a char* - round-trips through the queue'),
     'kfq.find_index.covers': dict(deciding=True, text='for every random start the probes of find_index are pairwise distinct slots 0..k-1 of the segment, and all k are probed before false is returned'),
     'kfq.find_index.result': dict(deciding=True, text='find_index returns true with index and value of a matching slot, false only if no slot of the segment matches'),
     'kfq.push.stores': dict(deciding=True, text='[SEQ] push never fails: exactly one empty slot of the segment tail_ points to afterwards receives (value, mark+1), ownership is taken exactly once, at most one segment is allocated; a null value throws before anything is touched'),
@@ -118,7 +119,7 @@ UNIT = dict(
     'kfq.dtor.each_once': dict(deciding=True, text='the destructor destroys every value still inside exactly once (C07)'),
     'kfq.dtor.segments_released': dict(deciding=True, text='the destructor releases every segment reachable from head_ exactly once, after emptying it'),
   },
-  canaries=['find_index.found', 'find_index.found_last', 'find_index.none', 'push.allocated', 'push.helped_tail', 'push.bumped_head', 'push.plain', 'push.null', 'pop.empty', 'pop.not_the_oldest',
+  canaries=['slot_word.reached', 'find_index.found', 'find_index.found_last', 'find_index.none', 'push.allocated', 'push.helped_tail', 'push.bumped_head', 'push.plain', 'push.null', 'pop.empty', 'pop.not_the_oldest',
             'pop.advanced_head', 'pop.advanced_tail', 'pop.allocated', 'committed_seq.at_head', 'committed_seq.behind_tail', 'advance_tail_seq.helped', 'advance_tail_seq.allocated', 'advance_head_seq.no_successor', 'advance_head_seq.moved_tail_too', 'advance_head_seq.plain', 'committed.taken', 'committed.at_head', 'committed.ahead', 'committed.deleted_but_head', 'committed.withdrawn', 'push_int.returned', 'pop_int.moved_tail', 'pop_int.true', 'pop_int.empty', 'advance_head_int.retired', 'advance_head_int.lost_race', 'advance_head_int.nothing', 'advance_head_int.moved_tail', 'advance_tail_int.linked', 'advance_tail_int.released_fresh', 'advance_tail_int.helped', 'advance_tail_int.nothing', 'ctor.reached', 'dri.tracked', 'dri.not_stored', 'dtor.tracked', 'dtor.not_stored', 'dtor.three_segments'],
   replays={'kfq.push.stores': dict(src='replay_seq.cpp', fixed={'op': 0}), 'kfq.pop.empty': dict(src='replay_seq.cpp', fixed={'op': 1}),
            'kfq.pop.oldest_segment': dict(src='replay_seq.cpp', fixed={'op': 1}), 'kfq.pop.k_oldest': dict(src='replay_seq.cpp', fixed={'op': 1})},
